@@ -134,11 +134,44 @@ class Extractor:
         t = e.get("t", "")
         return cls in t
 
+    def resolve_written(self, a, depth=0):
+        """Key of a written value, looking through const locals (and const local arrays) that only carry a member."""
+        key = lv_key(a)
+        a0 = C.strip_casts(a)
+        if depth > 4 or a0 is None:
+            return key
+        if a0.get("k") == "Ref" and "id" in a0:
+            d = self.locals.get(a0["n"])
+            if d and d[0] == "expr" and self.const_local.get(a0["n"]):
+                i0 = C.strip_casts(d[1])
+                plain = i0 is not None and (i0.get("k") in ("Mem", "Idx", "Ref") or
+                                            (i0.get("k") == "Call" and i0.get("op") == "[]"))
+                k2 = self.resolve_written(d[1], depth + 1) if plain else None
+                if key_root_member(k2):
+                    return k2
+        base = idx = None
+        if a0.get("k") == "Idx":
+            base, idx = C.strip_casts(a0["a"]), C.const_int(a0["i"])
+        if base is not None and idx is None and a0.get("k") == "Idx":
+            i0 = C.strip_casts(a0["i"])
+            if i0.get("k") == "Ref" and self.locals.get(i0.get("n"), (None,))[0] == "expr" and \
+                    self.const_local.get(i0.get("n")):
+                idx = C.const_int(self.locals[i0["n"]][1])
+        if base is not None and base.get("k") == "Ref" and "id" in base and idx is not None:
+            d = self.locals.get(base["n"])
+            if d and d[0] == "expr" and self.const_local.get(base["n"]):
+                init = C.strip_casts(d[1])
+                if init.get("k") == "InitList" and 0 <= idx < len(init["a"]):
+                    k2 = self.resolve_written(init["a"][idx], depth + 1)
+                    if key_root_member(k2):
+                        return k2
+        return key
+
     def write_event(self, x):
         if C.is_call(x, name="write", cls="RestartWriter") and len(x["a"]) == 1:
             a = x["a"][0]
             t = x.get("targs") or C.strip_casts(a).get("t", "")
-            key = lv_key(a)
+            key = self.resolve_written(a)
             root = key
             while root is not None and root[0] in ("f", "elem", "call"):
                 root = root[1]
@@ -161,7 +194,10 @@ class Extractor:
                     others = [a for a in args if not self.is_stream(a, "RestartWriter")]
                     return Item("obj", cls="factory:" + x.get("cls", x.get("fn", "?")),
                                 key=lv_key(others[0]) if others else None, line=x.get("l"))
-                return Item("obj", cls=x.get("cls", "?"), key=lv_key(obj), line=x.get("l"),
+                okey = lv_key(obj)
+                if okey is not None and okey[0] == "local" and okey[1] in getattr(self, "ptr_walk", {}):
+                    okey = ("elem", self.ptr_walk[okey[1]])
+                return Item("obj", cls=x.get("cls", "?"), key=okey, line=x.get("l"),
                             virtual=bool(x.get("virt")))
         return None
 
@@ -275,6 +311,20 @@ class Extractor:
         k = s.get("k")
         if k == "For":
             c = C.strip_casts(s.get("c")) if s.get("c") else None
+            # pointer walk over a member array: for (T *p = member; p < member + n; ++p)
+            if c is not None and c.get("k") == "Bin" and c["op"] in ("<", "!=") and s.get("init") and \
+                    s["init"].get("k") == "Decl":
+                d0 = s["init"]["d"][0]
+                if (d0.get("t") or "").rstrip().endswith("*") and d0.get("init") is not None:
+                    mk = lv_key(d0["init"])
+                    end = C.strip_casts(c["b"])
+                    if end.get("k") == "Ref" and self.locals.get(end.get("n"), (None,))[0] == "expr":
+                        end = C.strip_casts(self.locals[end["n"]][1])
+                    if key_root_member(mk) and end.get("k") == "Bin" and end["op"] == "+" and lv_key(end["a"]) == mk:
+                        if not hasattr(self, "ptr_walk"):
+                            self.ptr_walk = {}
+                        self.ptr_walk[d0["n"]] = mk
+                        return self.canon(end["b"])
             if c is not None and c.get("k") == "Bin" and c["op"] in ("<", "!=", "<="):
                 b = self.canon(c["b"])
                 a = C.strip_casts(c["a"])
@@ -303,6 +353,14 @@ class Extractor:
                 return "item%d" % self.size_of[key][1]
             return "size(%s)" % self.keystr(key)
         if k in ("While", "Do"):
+            c = C.strip_casts(s.get("c")) if s.get("c") else None
+            if c is not None and c.get("k") == "Bin" and c["op"] in ("<", "!="):
+                v = C.strip_casts(c["a"])
+                if v.get("k") == "Ref" and v.get("n") in getattr(self, "zero_counters", {}):
+                    incs = [x for x in C.walk_stmt(s["body"]) if x.get("k") == "Un" and x["op"] in ("pre++", "post++") and
+                            C.strip_casts(x["x"]).get("n") == v["n"]]
+                    if len({id(x) for x in incs}) == 1:
+                        return self.canon(c["b"])
             return "while(%s)" % self.canon(s["c"])
         return "?"
 
@@ -332,6 +390,10 @@ class Extractor:
                     t.rstrip().endswith("const")
                 if init is None:
                     continue
+                if C.const_int(init) == 0 and not self.const_local[d["n"]]:
+                    if not hasattr(self, "zero_counters"):
+                        self.zero_counters = {}
+                    self.zero_counters[d["n"]] = True
                 evs = self.events_in(init, dest=("local", d["n"]))
                 for it in evs:
                     self.emit(items, it)
@@ -350,6 +412,21 @@ class Extractor:
                 self.stmt(s["el"], el)
             if th or el:
                 items.append(Item("cond", cond=self.canon(s["c"]), then=th, els=el, line=s.get("l")))
+            return
+        if k == "For" and self._unrollable_over_local_array(s):
+            # a constant loop that indexes a const local array (a table of members written one by one): unrolled here so
+            # that every written value keeps the member it comes from
+            n_it, lv = self._unrollable_over_local_array(s)
+            saved = (self.locals.get(lv), self.const_local.get(lv))
+            for i in range(n_it):
+                self.locals[lv] = ("expr", {"k": "Int", "v": i, "t": "int"})
+                self.const_local[lv] = True
+                self.stmt(s["body"], items)
+            if saved[0] is None:
+                self.locals.pop(lv, None)
+            else:
+                self.locals[lv] = saved[0]
+            self.const_local[lv] = saved[1]
             return
         if k in ("For", "While", "Do", "ForRange"):
             if k == "For" and s.get("init"):
@@ -377,6 +454,36 @@ class Extractor:
             return
         # expression statement
         e = C.strip_casts(s)
+        # a helper of the same class that receives the stream: its body is part of this grammar
+        if e.get("k") == "Call" and not e.get("op") and e.get("n") not in ("write_restart_file", "write_restart_info",
+                                                                            "read_restart_info", "restart") and \
+                (e.get("obj") is None or C.strip_casts(e["obj"]).get("k") == "This") and \
+                any(self.is_stream(a, "RestartWriter" if self.side == "w" else "RestartReader") for a in e["a"]):
+            callee = None
+            if self.unit is not None:
+                cands = [d for d in self.unit.functions.get(e.get("fn") or "", []) if d.get("body")]
+                nd = [d for d in cands if not d.get("dependent")]
+                callee = (nd or cands or [None])[0]
+            if callee is None or getattr(self, "_inline_depth", 0) > 3:
+                raise AnalysisBroken("%s: the restart stream is handed to %s, which the grammar extractor cannot follow "
+                                     "(line %s)" % (self.fn["full"], e.get("fn") or e.get("n"), e.get("l")))
+            saved = {}
+            for p2, a2 in zip(callee["params"], e["a"]):
+                saved[p2["n"]] = (self.locals.get(p2["n"]), self.const_local.get(p2["n"]))
+                self.locals[p2["n"]] = ("expr", a2)
+                self.const_local[p2["n"]] = True
+            self._inline_depth = getattr(self, "_inline_depth", 0) + 1
+            try:
+                self.stmt(callee["body"], items)
+            finally:
+                self._inline_depth -= 1
+                for nm, (old, oc) in saved.items():
+                    if old is None:
+                        self.locals.pop(nm, None)
+                    else:
+                        self.locals[nm] = old
+                    self.const_local[nm] = oc
+            return
         dest = None
         if e.get("k") == "Bin" and e["op"] == "=":
             dest = lv_key(e["a"])
@@ -406,6 +513,15 @@ class Extractor:
                 rhs = e.get("b") if e.get("k") == "Bin" else (e["a"][0] if e["a"] else None)
                 if rhs is not None and self.canon(rhs).startswith("item"):
                     self.members_via_locals.add(key_root_member(dest))
+                    # `member = local` where the local holds exactly one value read from the stream: the member is what
+                    # that value was read into
+                    r0 = C.strip_casts(rhs)
+                    if r0.get("k") == "Ref" and self.locals.get(r0.get("n"), (None,))[0] == "item":
+                        kk = self.locals[r0["n"]][1]
+                        for it in self.flat:
+                            if it.kind == "prim" and getattr(it, "index", None) == kk and \
+                                    (it.key is None or it.key[0] == "local"):
+                                it.key = dest
             # reader: v.resize(local read as item k)  /  v = new T[local]
             if C.is_call(e, name="resize") and e.get("obj") is not None and e["a"]:
                 c = self.canon(e["a"][0])
@@ -414,6 +530,31 @@ class Extractor:
             if dest is not None and len(evs) == 1 and evs[0].kind == "prim" and dest[0] == "local" and \
                     self._is_direct_read(e.get("b") if e.get("k") == "Bin" else e["a"][0]):
                 self.locals[dest[1]] = ("item", evs[0].index)
+
+    def _unrollable_over_local_array(self, s):
+        """(trip count, loop variable) for `for (T i = 0; i < N; ++i)` with constant N <= 16 whose body indexes a const
+        local array with i; else None."""
+        init, c, inc = s.get("init"), s.get("c"), s.get("inc")
+        if not init or init.get("k") != "Decl" or len(init["d"]) != 1 or c is None or inc is None:
+            return None
+        d0 = init["d"][0]
+        c = C.strip_casts(c)
+        inc = C.strip_casts(inc)
+        if C.const_int(d0.get("init")) != 0 or c.get("k") != "Bin" or c["op"] != "<" or \
+                C.strip_casts(c["a"]).get("n") != d0["n"] or C.const_int(c["b"]) is None or not (0 < C.const_int(c["b"]) <= 16):
+            return None
+        if not (inc.get("k") == "Un" and inc["op"] in ("pre++", "post++") and C.strip_casts(inc["x"]).get("n") == d0["n"]):
+            return None
+        uses = False
+        for x in C.walk_stmt(s["body"]):
+            if x.get("k") == "Idx":
+                b = C.strip_casts(x["a"])
+                i = C.strip_casts(x["i"])
+                if b.get("k") == "Ref" and "id" in b and self.const_local.get(b["n"]) and \
+                        self.locals.get(b["n"], (None,))[0] == "expr" and \
+                        C.strip_casts(self.locals[b["n"]][1]).get("k") == "InitList" and i.get("n") == d0["n"]:
+                    uses = True
+        return (C.const_int(c["b"]), d0["n"]) if uses else None
 
     def _is_direct_read(self, e):
         e = C.strip_casts(e)
